@@ -21,9 +21,9 @@ open AN (QCol Clause)
 
 def anon : QCol := ⟨none, none, none⟩
 
-/-- the dialect variables: not columns -/
+/-- the dialect variables (in any letter case, without qualifier): not columns -/
 def isGlobal (t : Option String) (n : String) : Bool :=
-  t.isNone && (n == "CURRENT_DATE" || n == "CURRENT_TIME" || n == "CURRENT_TIMESTAMP")
+  t.isNone && ["CURRENT_DATE", "CURRENT_TIME", "CURRENT_TIMESTAMP", "CURRENT DATE", "CURRENT TIME", "CURRENT TIMESTAMP"].contains (Gen.pyUpperS n)
 
 mutual
 def colsE : Expr → List QCol
